@@ -29,6 +29,9 @@ type Scenario struct {
 	Cancel  bool       `json:"allow_cancel,omitempty"`
 	FailCtx bool       `json:"allow_store_failure_ctx_canceled,omitempty"`
 	Budget  int        `json:"budget,omitempty"`
+	// ReadFail: kinds of store read ("ik", "ref", "tx", "balance", "account") that fail with a transient error while
+	// the requests run (not during the setup): every request that needs such a read must fail and leave nothing
+	ReadFail []string `json:"read_fail,omitempty"`
 	// Directed: schedules given by choice names ("start(1)", "cancel(1)", "persist_ok(-1)"; "resume(0)*" = as long as
 	// that choice is enabled), executed (and replayed on the model) before the search; once a script is used up the
 	// first enabled choice is taken
@@ -92,6 +95,12 @@ func runDirected(sc Scenario, prefix []int, script []string, keepTrace bool) Exe
 	ex := Exec{SetupLen: len(disk.Logs), SetupChoices: setupChoices}
 	s := engx.New(disk, sc.Reqs)
 	s.AllowFail, s.AllowCrash, s.AllowCancel, s.AllowFailCtx = sc.Fail, sc.Crash, sc.Cancel, sc.FailCtx
+	if len(sc.ReadFail) > 0 {
+		s.ReadFail = map[string]bool{}
+		for _, k := range sc.ReadFail {
+			s.ReadFail[k] = true
+		}
+	}
 	step := 0
 	for s.Fault == "" {
 		en := s.Enabled()
@@ -720,6 +729,29 @@ func scenarios() []Scenario {
 			}},
 		{Name: "store-failure-context-canceled", Setup: []engx.Req{fund("alice", 100)}, FailCtx: true, Budget: 40, Reqs: []engx.Req{
 			metaA, xfer(10, "alice", "bob")}},
+		// three spenders of one balance: one holds the locks, two queue behind it (a release must grant them one by one)
+		{Name: "three-spenders", Setup: []engx.Req{fund("alice", 100)}, Budget: 400, Reqs: []engx.Req{
+			xfer(100, "alice", "bob"), xfer(100, "alice", "carol"), xfer(100, "alice", "dave")},
+			Directed: [][]string{
+				{"start(0)", "resume(0)*", "start(1)", "resume(1)*", "start(2)", "resume(2)*", "persist_ok(-1)", "resume(0)*", "resume(1)*", "resume(2)*", "persist_ok(-1)", "resume(1)*", "resume(2)*"},
+			}},
+		{Name: "three-spenders-partial", Setup: []engx.Req{fund("alice", 100)}, Budget: 300, Reqs: []engx.Req{
+			xfer(40, "alice", "bob"), xfer(40, "alice", "carol"), xfer(40, "alice", "dave")},
+			Directed: [][]string{
+				{"start(0)", "resume(0)*", "start(1)", "resume(1)*", "start(2)", "resume(2)*", "persist_ok(-1)", "resume(0)*", "resume(1)*", "resume(2)*", "persist_ok(-1)", "resume(1)*", "resume(2)*", "persist_ok(-1)", "resume(2)*"},
+			}},
+		// idempotency keys that are not "clean" text: surrounding blanks, inner blanks, case; a retry after a restart
+		{Name: "ik-with-blanks-retry", Setup: []engx.Req{fund("alice", 300), ik(xfer(10, "alice", "bob"), " k20 "), ik(xfer(10, "alice", "bob"), "K21\t")},
+			Reqs: []engx.Req{ik(xfer(10, "alice", "bob"), " k20 "), ik(xfer(10, "alice", "bob"), "K21\t"), ik(xfer(10, "alice", "bob"), "k20")}},
+		// transient failures of the store reads the write path depends on: the request fails and leaves nothing
+		{Name: "read-failure-ik", Setup: []engx.Req{fund("alice", 300), ik(xfer(10, "alice", "bob"), "k22")}, ReadFail: []string{"ik"}, Budget: 40,
+			Reqs: []engx.Req{ik(xfer(10, "alice", "bob"), "k22"), ik(metaA, "k23")}},
+		{Name: "read-failure-reference", Setup: []engx.Req{fund("alice", 300), ref(xfer(10, "alice", "bob"), "r22")}, ReadFail: []string{"ref"}, Budget: 40,
+			Reqs: []engx.Req{ref(xfer(20, "alice", "bob"), "r22"), xfer(5, "alice", "bob")}},
+		{Name: "read-failure-transaction", Setup: []engx.Req{fund("alice", 300), xfer(10, "alice", "bob"), engx.Req{Kind: "revert", RevertID: 1}}, ReadFail: []string{"tx"}, Budget: 40,
+			Reqs: []engx.Req{{Kind: "revert", RevertID: 1}, {Kind: "savemeta", Target: "TRANSACTION", TargetID: "7", Meta: map[string]string{"a": "1"}}}},
+		{Name: "read-failure-balance", Setup: []engx.Req{fund("alice", 50)}, ReadFail: []string{"balance", "account"}, Budget: 40,
+			Reqs: []engx.Req{xfer(100, "alice", "bob"), xfer(10, "alice", "bob")}},
 		{Name: "crash-points", Setup: []engx.Req{fund("alice", 100)}, Crash: true, Fail: true, Reqs: []engx.Req{
 			ik(xfer(10, "alice", "bob"), "k3"), ik(xfer(10, "alice", "bob"), "k3"),
 			{Kind: "delmeta", Target: "ACCOUNT", TargetID: "alice", Key: "a"}}},
@@ -1229,7 +1261,7 @@ func main() {
 				fmt.Fprintln(os.Stderr, "EXEC", ex.Choices, string(js), len(ex.Disk))
 			}
 			coq := ""
-			modelled := !sc.FailCtx // this scenario offers a choice the model does not have
+			modelled := !sc.FailCtx && len(sc.ReadFail) == 0 // this scenario offers a choice / a store behaviour the model does not have
 			for _, c := range ex.MainChoices {
 				if c.Kind == "persist_fail_ctx" {
 					modelled = false // a store failure of kind context.Canceled is outside the model: oracle only
